@@ -34,6 +34,7 @@ MANIFEST = {
 
 FIXED_POOL = [[1], [1, 2], [2, 1], [1, 2, 1], [4, 1, 4, 2], [1, 4, 4, 2]]
 # for the sibling-filter subjects: the two inputs exercise different nested lookups first
+TRAIL_POOL = [[1, 4, 4], [1, 4, 5], [2, 1, 4, 4], [1, 4, 4, 2], [1, 4, 5, 2, 1, 4, 4], [4, 1, 4, 4, 4]]
 SIB_POOL = [[1, 4, 1], [1, 5, 1], [2, 5, 2], [2, 4, 2], [1, 4, 1, 2, 5, 2], [2, 5, 2, 1, 4, 1]]
 
 
@@ -140,14 +141,17 @@ def run(ctx):
     sib = [c for c in sc.build(["ctxfilt"]) if len(c["ll"]) == 3 and "mark" in c["ll"][0]["flags"]
            and c["ll"][1]["subs"][0]["k"] == "lig" and c["ll"][2]["subs"][0]["k"] == "lig"
            and c["ll"][1]["flags"] == c["ll"][2]["flags"]]
-    must = [c for c in others if multi_lig(c)] + nest + sc.build(["curs"]) + sib
+    # rewrites among the ignored glyphs that trail an outer match (its end has to follow): a sample; C06 runs all
+    trail = sc.build(["ctxtrail"])[::5]
+    must = [c for c in others if multi_lig(c)] + nest + sc.build(["curs"]) + sib + trail
     others = must + [c for c in others if not multi_lig(c)][:ctx.pick(45, 600)]
     rnd = [sc.random_case(rng, 0, 6) for _ in range(ctx.pick(40, 400))]
     cases = []
     for c0 in mal + others + rnd:
         c = dict(c0)
         c["id"] = len(cases) + 1
-        pool = [list(p) for p in (SIB_POOL if any(c0 is x for x in sib) else FIXED_POOL)]
+        pool = [list(p) for p in (SIB_POOL if any(c0 is x for x in sib) else
+                                  TRAIL_POOL if any(c0 is x for x in trail) else FIXED_POOL)]
         # one medium random string and one of length 200 over the full glyph-id range
         pool.append([rng.choice([1, 2, 3, 4, 5, 6]) for _ in range(rng.randint(0, 40))])
         pool.append([rng.choice([1, 2, 3, 4, 5, 6, 1, 2, 4, 0, 7, 300, 65535]) for _ in range(200)])
@@ -161,15 +165,21 @@ def run(ctx):
         cp = os.path.join(dd, "case.json")
         json.dump([c], open(cp, "w"))
         op = os.path.join(dd, "out.ndjson")
-        ctx.run([binp, "history", cp, hpath, op])
-        ok, line, r = ctx.validate_trace("ShaperSafetyTrace", op, label="replay of one case", traces=0)
+        # a dependence on map iteration order shows up with some probability only: several attempts
+        for attempt in range(6):
+            ctx.run([binp, "history", cp, hpath, op])
+            ok, line, r = ctx.validate_trace("ShaperSafetyTrace", op, label="replay of one case", traces=0)
+            if not ok:
+                break
         if ok:
-            raise vlib.Infra("rejection of case %d did not reproduce in isolation" % c["id"])
+            raise vlib.Infra("rejection of case %d did not reproduce in isolation (6 attempts)" % c["id"])
         again = vlib.read_ndjson(op)[line - 1]
         kind, txt = _classify(again)
         subt = "+".join(sorted({st["k"] for L in c["ll"] for st in L["subs"]}))
         what = "%s | object %s, family %s, subtables %s, input %s | event %s" % (
-            txt, {1: "gtab.Context", 2: "sfnt.Layouter"}.get(again.get("obj"), "?"), c["family"], subt,
+            txt, {1: "gtab.Context", 2: "sfnt.Layouter",
+                  3: "a NEW sfnt.Layouter on a font with several language systems of one script (the choice depends on map "
+                     "iteration order)"}.get(again.get("obj"), "?"), c["family"], subt,
             c["inputs"][again["i"] - 1] if "i" in again else "?",
             json.dumps({k: v for k, v in again.items() if k not in ("case",)})[:300])
         ctx.violation(what, sig={"kind": kind, "site": again.get("site", ""), "family": c["family"]},
@@ -189,7 +199,7 @@ def run(ctx):
         if k == 0:
             first_sample.append(evs[1:4])
         for e in evs:
-            if e["ev"] == "fresh":
+            if e["ev"] == "fresh" and e["obj"] in live:
                 live[e["obj"]][0] += 1
                 live[e["obj"]][1] += 1 if e.get("chg") else 0
         _validate_all(ctx, evs, "ShaperSafetyTrace: histories on built tables %d" % k, rerun_history)
